@@ -108,16 +108,15 @@ def respWire (C : Crypto) (s : SWriter) (ch : RespChoice) (p0 : Bytes) (cs : Lis
 `firstCap` bytes travel with the response header, the rest as ordinary chunks; later calls continue
 from the writer it leaves behind. -/
 theorem SWriter_first_write (C : Crypto) (s : SWriter) (hs : s.w = none) (ch : RespChoice) (b : Bytes)
-    (hb : b.length ≠ 0) (later : List Bytes) :
-    let cap := firstCap s.respPrefix.length s.psk.length ch
+    (hb : b.length ≠ 0) (later : List Bytes) (cap : Nat) (hcap : cap = firstCap s.respPrefix.length s.psk.length ch) :
     ∃ w1, (s.write C ch b).2.w = some w1 ∧
       ((s.write C ch b).1 ++ (w1.emit C later).1).flatten =
         respWire C s ch (b.take cap) (writeChunks (b.drop cap) ++ later) := by
-  intro cap
-  have h1 := emit_flatten C ⟨C.kdf s.psk ch.salt, 2⟩ (writeChunks (b.drop cap))
-  have h2 := emit_flatten C ⟨C.kdf s.psk ch.salt, 2 + 2 * (writeChunks (b.drop cap)).length⟩ later
+  subst hcap
+  have h1 := emit_flatten C ⟨C.kdf s.psk ch.salt, 2⟩ (writeChunks (b.drop (firstCap s.respPrefix.length s.psk.length ch)))
+  have h2 := emit_flatten C ⟨C.kdf s.psk ch.salt, 2 + 2 * (writeChunks (b.drop (firstCap s.respPrefix.length s.psk.length ch))).length⟩ later
   simp only at h1 h2
-  refine ⟨⟨C.kdf s.psk ch.salt, 2 + 2 * (writeChunks (b.drop cap)).length⟩, ?_, ?_⟩
+  refine ⟨⟨C.kdf s.psk ch.salt, 2 + 2 * (writeChunks (b.drop (firstCap s.respPrefix.length s.psk.length ch))).length⟩, ?_, ?_⟩
   · simp only [SWriter.write, hb, ↓reduceIte, hs, initWrite]
     rw [h1.2.1]
   · simp only [SWriter.write, hb, ↓reduceIte, hs, initWrite, List.flatten_append, List.flatten_cons, respWire]
